@@ -52,7 +52,10 @@ _SM_RULE = ("rapid state machine (t.Repeat, about 30 steps per case) over one re
             "an already populated subtree, tombstone/undelete (fresh or stale timestamp), node-point and edge-point batches "
             "(1-4 points, colliding identities, stale times, -0/Inf/subnormal values), re-delivery of earlier batches, points "
             "written without a time (stamped by the store, read back and checked against the wall-clock window), the public "
-            "helpers client.MirrorNode / MoveNode / DeleteNode on valid targets; "
+            "helpers client.MirrorNode / MoveNode / DeleteNode on valid targets; new edges are sometimes born deleted or "
+            "without any tombstone point; once per case a chain of 18-24 nodes (writes far below the root) and a batch of "
+            "129-300 points; writes that carry the time of the stored point with other content (the model takes over what is "
+            "read back); a helper request that times out (1 s, hard-coded) abandons the case as inconclusive; "
             "after EVERY step the full dump (walk from the root, deleted included, plus detached placements) is compared "
             "with the model graph: edge set, types, newest point per identity, and every stored hash against the Merkle "
             "hash recomputed from the dump by an independent CRC/XOR implementation; every write's up.> traffic is "
@@ -82,12 +85,14 @@ CHECKS["C05"] = dict(
     props=[dict(name="TestPropRefusals", quick=300, thorough=16 * 900, shards_quick=12, shards_thorough=16,
                 timeout_quick=900, timeout_thorough=7200)],
     rule=_SM_RULE + "C05 adds refusal candidates built from the model: node as its own parent, an edge that closes a cycle "
-         "through live or deleted edges (also via detached parents), tombstone aimed at the root, first edge without node "
-         "type, NaN (quiet/signalling-style payloads, either sign) at a drawn position of a node- or edge-point batch, "
-         "undecodable payload. Each must be answered with an error, leave the dump (hashes included) identical, produce no "
+         "through live or deleted edges (also via detached parents, with the root itself as the node, with the closing edge "
+         "born deleted), tombstone aimed at the root (any value that reads as deleted: 1, 3, 5, 2.5, 1001; key \"\" or \"0\"), "
+         "first edge without node type, NaN (quiet/signalling-style payloads, either sign) at a drawn position of a node- or "
+         "edge-point batch (also in a stale point of a held identity, also shadowed by a newer point of its identity in the "
+         "same batch), undecodable payload, client.MoveNode / MirrorNode of a node below itself. Each must be answered with an error, leave the dump (hashes included) identical, produce no "
          "up.> message, and a following valid write must be acknowledged. Non-trivial = a cycle-through-deleted-edge or a "
          "NaN-in-the-middle candidate was issued on a graph with >= 4 edges.",
-    assumptions=["tombstone values other than 0/1 aimed at the root are not asserted either way",
+    assumptions=["even tombstone values (2, 4: 'not deleted') aimed at the root are not generated: the statement does not say whether they are refused",
                  "a request that gets no reply within 20 s counts as a violation (the instance stopped answering)"],
     level_text="Generated histories (rapid state machine) with refusal candidates derived from the model graph; the no-trace "
                "oracle compares complete dumps before and after and watches the rebroadcast stream on the same connection.",
